@@ -253,27 +253,39 @@ def misc(ctx, prog):
         key = "%s|%s" % (prog.config, fn)
         pn = call(S + "pattern::PatternNorm::new", ("p", 2))
         ld = ("len", call(S + "pattern::PatternNorm::as_str", ("ref", pn)))
-        msg = None
-        seen = set()
+        lt0 = ("len", ("p", 1))
+
+        def starts_in(*accepted, ty=ty, mod=mod, pn=pn):
+            def f(path, case):
+                v = table.strip_gargs(path.value)
+                if not (v[0] == "agg" and v[1].endswith(ty + "#0") and v[2] == ("p", 1)):
+                    return "builds %s, expected %s{this: input, ..}" % (show(v), ty)
+                st = v[3]
+                for a in accepted:
+                    if a == "Normal" and is_state(mod, "Normal")(st) and st[2] == pn:
+                        return None
+                    if a != "Normal" and is_state(mod, "Empty", a)(st):
+                        return None
+                return "starts in %s, expected %s" % (show(st), " or ".join("Normal{delim: normalised pattern}" if a == "Normal" else "Empty(%s)" % a for a in accepted))
+            return f
+        # the third row: with an empty input and a non-empty delimiter, Normal and Empty(Continue) take the same single step in
+        # both directions (TAB-SPLIT rows "Normal, no delimiter"/"Normal, remainder empty" and "Empty(Continue), exhausted"/
+        # "Empty(Continue), remainder empty": same piece or end, empty remainder, same final state), so either is std's behaviour;
+        # Empty(Start) is not (it yields one more "").
+        rows = [
+            Row([eq(ld, Int(0))], starts_in("Start"), name="empty delimiter"),
+            Row([ne(ld, Int(0)), ne(lt0, Int(0))], starts_in("Normal"), name="non-empty delimiter"),
+            Row([ne(ld, Int(0)), eq(lt0, Int(0))], starts_in("Normal", "Continue"), name="non-empty delimiter, empty input"),
+        ]
         for p in paths:
-            v = table.strip_gargs(p.value)
-            conds = [table.norm_atom(c) for c in p.conds]
-            if not (v[0] == "agg" and v[1].endswith(ty + "#0") and v[2] == ("p", 1)):
-                msg = "builds %s, expected %s{this: input, ..}" % (show(v), ty)
-                continue
-            st = v[3]
-            if eq(ld, Int(0)) in conds:
-                seen.add("empty")
-                if not is_state(mod, "Empty", "Start")(st):
-                    msg = "empty delimiter must start in Empty(Start), got %s" % show(st)
-            elif ne(ld, Int(0)) in conds:
-                seen.add("normal")
-                if not (is_state(mod, "Normal")(st) and st[2] == pn):
-                    msg = "non-empty delimiter must start in Normal{delim: normalised pattern}, got %s" % show(st)
-        if seen != {"empty", "normal"}:
-            msg = msg or "constructor does not branch on the delimiter being empty"
-        if msg:
-            ctx.violation("DLG", key, "%s: %s" % (fn, msg), b.file())
+            p.conds = tuple(table.strip_gargs(c) for c in p.conds)
+        try:
+            mism, n, dec = table.compare(paths, rows)
+        except table.Undecided as e:
+            ctx.violation("DLG", key, "%s: undecided: %s" % (fn, e), b.file())
+            mism = []
+        for m in mism[:2]:
+            ctx.violation("DLG", key, "%s: %s" % (fn, m), b.file())
         ctx.instance("DLG", key)
     b = ctx.anchor(prog, SP + "rsplit")
     if b is not None:
